@@ -66,7 +66,7 @@ def classify(msg):
     return {"kind": "store", "what": msg.split(" (")[0][:60]}
 
 
-def run(res, pid=PID, scs_fn=scenarios, nontrivial_fn=nontrivial, rule=None):
+def run(res, pid=PID, scs_fn=scenarios, nontrivial_fn=nontrivial, rule=None, extra_pred=None, shard=None):
     proofs_ok = vlib.common_obligations(res, pid)
     if getattr(res, "harness_error", None):
         res.violation({"kind": "harness-build", "failed": "correspondence: the harness no longer compiles against /repo",
@@ -84,12 +84,14 @@ def run(res, pid=PID, scs_fn=scenarios, nontrivial_fn=nontrivial, rule=None):
             pred_fail.append((s, (0, "no result from the harness")))
             continue
         bad = storelib.refmap_check(s, r["obs"])
+        if bad is None and extra_pred:
+            bad = extra_pred(s, r["obs"])
         if bad is None and r.get("inv"):
             bad = (len(r["obs"]) - 1, "white-box invariant: " + r["inv"][0])
         if bad:
             pred_fail.append((s, bad))
     # 2. model vs implementation (inside Coq)
-    mism, coq_secs = storelib.coq_compare(pid.lower(), scs, results, shard=80 if res.tier == "quick" else 400)
+    mism, coq_secs = storelib.coq_compare(pid.lower(), scs, results, shard=shard or (80 if res.tier == "quick" else 400))
     mism_ids = {}
     for sid, step, mobs in mism:
         mism_ids.setdefault(sid, (step, mobs))
@@ -100,12 +102,14 @@ def run(res, pid=PID, scs_fn=scenarios, nontrivial_fn=nontrivial, rule=None):
         rr = storelib.run_impl([dict(c, id=0)]).get(0)
         if rr is None:
             return False
-        return storelib.refmap_check(c, rr["obs"]) is not None or bool(rr.get("inv"))
+        return (storelib.refmap_check(c, rr["obs"]) is not None or bool(rr.get("inv"))
+                or (extra_pred is not None and extra_pred(c, rr["obs"]) is not None))
 
     for s, bad in pred_fail[:40]:
         small = storelib.shrink({k: v for k, v in s.items() if not k.startswith("_")}, fails_pred)
         rr = storelib.run_impl([dict(small, id=0)])[0]
-        b2 = storelib.refmap_check(small, rr["obs"]) or (len(rr["obs"]) - 1, "white-box invariant: " + (rr.get("inv") or ["?"])[0])
+        b2 = (storelib.refmap_check(small, rr["obs"]) or (extra_pred and extra_pred(small, rr["obs"]))
+              or (len(rr["obs"]) - 1, "white-box invariant: " + (rr.get("inv") or ["?"])[0]))
         key = json.dumps(small["ops"])
         if key in reported:
             continue
@@ -159,7 +163,7 @@ def run(res, pid=PID, scs_fn=scenarios, nontrivial_fn=nontrivial, rule=None):
     res.coverage.update({
         "evaluations": len(scs), "distinct_nontrivial": len(nt),
         "rule": rule or "corpus + all sequences of length <= L over a 10-op alphabet (2 hkeys x 2 sizes, delete, raw put, compaction step, table transfer) at table size 101 + seeded random sequences (8-60 ops, table sizes 67..1021, equal and mixed entry sizes); non-trivial = overwrote a key, compacted or transferred after the store had grown to >= 2 tables",
-        "exhaustive": False, "exhaustive_part": {"alphabet": 10, "max_length": 3 if res.tier == "quick" else 5, "cases": nex},
+        "exhaustive": False, "exhaustive_part": {"cases": nex},
         "corpus_cases": ncorpus, "random_cases": nrand,
         "op_histogram": hist, "result_histogram": codes,
         "traces_validated_against_impl": len(results),
